@@ -67,7 +67,7 @@ def strip_path(name):
     return name
 
 
-OUT = VERIF if os.path.abspath(REPO) == '/repo' else '/tmp/pyvc-scratch-out'     # runs on scratch copies never touch /verif/evidence
+OUT = VERIF if os.path.abspath(REPO) == '/repo' and not os.environ.get('VERIF_ONLY') else '/tmp/pyvc-scratch-out'     # runs on scratch copies never touch /verif/evidence
 
 
 def write_replay(prop, proof, obligation, inputs, detail, solver_output=None, tag=''):
@@ -115,6 +115,9 @@ def run_property(prop, tier, seed):
     proofs = [p for p in api.PROOFS if p.prop == prop]
     if tier == 'quick':
         proofs = [p for p in proofs if not getattr(p.cls, 'thorough_only', False)]
+    only = os.environ.get('VERIF_ONLY')          # development aid: restrict to proofs whose name contains the string
+    if only:
+        proofs = [p for p in proofs if only in p.name]
     known = load_known()
     timeout = 10 if tier == 'quick' else 60
     ledger_path = os.path.join(VERIF, 'baseline', f"{prop}.json")
@@ -284,7 +287,7 @@ def run_property(prop, tier, seed):
 
     # ledger comparison
     names_now = {n for n, s in ob_status.items()}
-    missing = [n for n in ledger if n not in names_now]
+    missing = [] if only else [n for n in ledger if n not in names_now]
     if missing:
         gone_because_error = any(r is not None and r.error for _, r in runs)
         if not gone_because_error:
